@@ -85,6 +85,22 @@ fn cq_rule(r: &Value) -> String {
         cq_obool(&r["log"]), cq_obool(&r["reset"]), cq_obool(&r["stop"]), cq_on(&r["sampling"]))
 }
 
+/// a rule in the crate's own JSON (serde of api::Rule) as a Coq `rule` term of RIO.ActionModel; HTML body filters are
+/// dropped (the action model carries text filters only) and reported through `html_dropped`
+pub fn cq_rule_api(r: &Value, html_dropped: &mut bool, names: &mut BTreeSet<String>) -> String {
+    let src = &r["source"];
+    let hfs: Vec<Value> = r["header_filters"].as_array().cloned().unwrap_or_default();
+    for f in &hfs { names.insert(f["header"].as_str().unwrap_or("").to_string()); }
+    let all_bfs: Vec<Value> = r["body_filters"].as_array().cloned().unwrap_or_default();
+    let bfs: Vec<Value> = all_bfs.iter().filter(|f| f.get("content").is_some()).cloned().collect();
+    if bfs.len() != all_bfs.len() { *html_dropped = true; }
+    format!("{{| r_id := {}; r_rank := {}; r_status := {}; r_target := {}; r_codes := {}; r_excl := {}; r_hf := {}; r_bf := {}; r_log := {}; r_reset := {}; r_stop := {}; r_sampling := {} |}}",
+        cq_str(r["id"].as_str().unwrap()), r["rank"].as_u64().unwrap_or(0), cq_on(&r["status_code"]), cq_ostr(&r["target"]),
+        if src["response_status_codes"].is_null() { "None".to_string() } else { format!("(Some {})", cq_codes(&src["response_status_codes"])) },
+        cq_obool(&src["exclude_response_status_codes"]), cq_list(&hfs, cq_hf), cq_list(&bfs, cq_bf),
+        cq_obool(&r["log_override"]), cq_obool(&r["reset"]), cq_obool(&r["stop"]), cq_on(&src["sampling"]))
+}
+
 /// the crate's Action (through its JSON) as a Coq `action` term
 pub fn cq_action(a: &Value) -> String {
     let scu = match &a["status_code_update"] {
